@@ -26,6 +26,24 @@ checks = [
  ("C14", "exhaustive permutation exploration: every order of the keyword arguments of every generated call, analysed by the real code and compared with the first order",
   "User-defined and configured methods with 2-3 (quick) / 2-5 (thorough) keyword parameters (required, defaulted), calls supplying every subset of keys with Integer/String values, an optional unknown key and 0-1 positional, with and without parentheses: all permutations must print identical output.",
   TRUST),
+ ("C05", "schedule exploration over owned map-iteration order: every range-over-map execution is a scheduling point; SORTED/REVERSED/ROT policies plus all single-site deviations (deviation bound 1), outputs compared; dependences confirmed by repeated fresh runs of the unmodified binary",
+  "Programs (generated + corpus) x 11 output modes are executed under the reference order, the global reversal and two rotations, and under every policy that reverses exactly one executed range statement (bound 1; capped per case, cap reported); every reference run is executed twice with other cases in between and scanned for heap addresses. Output must be byte-identical (multiset of lines for --define).",
+  TRUST + " Map iteration order is owned at the granularity of range statements (sites found mechanically by the overlay generator); goroutine/GC schedules are assumed not to reach the output (no finalisers, pointer-keyed maps, time or randomness in non-test sources)."),
+ ("C12", "explicit-state search over statement sequences with an in-package state dump (invariant on every state) plus a black-box probe oracle",
+  "After a fixed prelude every sequence of statements from a 42-statement alphabet up to depth 2 (quick) / 3 (thorough), and every corpus program that does not reopen a configured class, is analysed; the canonical dump of every configured TFrame entry must be identical before and after analysis (distinct table states are counted), and a probe block generated from the configuration must print the same types after the program as alone.",
+  TRUST + " The table is observed through a dump hook added by the overlay (tag verif); scratch fields that lookups legitimately rewrite are excluded from the dump."),
+ ("C18", "metamorphic bounded-exhaustive exploration: every top-level split of every program into preload file(s) + target, analysed by the real code and compared with the whole program",
+  "Every corpus and generated program is split at every top-level statement boundary (thorough: every pair of boundaries, two preload files) with a generated .ti-loader.json; the target's output must equal the whole program's output restricted to the target's rows and rebased, and must not name a preload file.",
+  TRUST + " Top-level boundaries are recognised by the harness (keyword depth and column-0 indentation)."),
+ ("C19", "bounded-exhaustive exploration of configuration layouts: load-order permutations and class-file splits of the shipped configuration, every program analysed under each and compared with the shipped layout",
+  "The shipped configuration is loaded reversed, under cyclic rotations (quick: 5; thorough: all) and all adjacent transpositions (thorough), and with class files split in two in several load orders (quick: every third class); every corpus and generated program must print the same output as under the shipped file names.",
+  TRUST),
+ ("C20", "bounded-exhaustive exploration of configuration extensions: extra class files (fresh names in several frames, namespaced, with extends, and per-program short-name collisions with user classes), every program analysed with and without",
+  "Each corpus and generated program is analysed with the shipped configuration and with one extra class file added (loaded first or last) that the program never mentions, including for every user-defined class of the program a configured class of the same short name in a foreign frame; output must be identical.",
+  TRUST),
+ ("C21", "exhaustive exploration of notation pairs x method shapes x argument tuples: the same declaration written in both notations, every call analysed under both configurations",
+  "For every notation pair of the property a generated class declares the method in notation A and in notation B (class and instance method; alone / after a required Int / before a trailing String); every argument tuple up to length 2 (quick) / 3 (thorough) over seven literal kinds and the --suggest rendering must give identical output under both configurations.",
+  TRUST),
 ]
 m = {
  "version": 1,
